@@ -115,7 +115,10 @@ def blackbox(out, hists, seed, per_session=5, by_enc=None, offers=None):
                         # must not be re-read from disk (where it differs from the editor's text in every second history)
                         toml = os.path.join(pkg, "gleam.toml")
                         sib = os.path.join(pkg, "src", "sibling.gleam")
-                        if note["other"] == "open_toml":
+                        if note["other"] == "save_self":
+                            # the save wrote an older state (or went elsewhere): what is on disk is not the editor's text
+                            sess.notify("textDocument/didSave", {"textDocument": {"uri": lsp.uri(path)}})
+                        elif note["other"] == "open_toml":
                             sess.did_open(toml, open(toml).read())
                         elif note["other"] == "watched_toml":
                             open(toml, "a").write("\n# touched\n")
